@@ -219,7 +219,7 @@ check("C14", "exploration",
       ["src/array.c", "include/cstl/array.h", "src/memory.c"], stubs=ALLOC_STUBS,
       required_probes=["alloc_on_sliced_object", "set_on_sliced_object", "slice_in_place", "slice_beyond_own_length", "slice_abort", "at_abort", "unslice",
                        "release_sole_user", "release_refused_other_views", "release_refused_internal", "buffer_released_with_last_view", "alloc_fail_fired",
-                       "product_unrepresentable", "set_external"])
+                       "product_unrepresentable", "set_external", "set_same_base_twice", "set_virtual_huge_buffer", "slice_beyond_2^31"])
 mtext("C14",
       "Seeded histories of alloc/set/slice/unslice/reset/release over 2-4 array objects (alloc and set onto empty, full-view and sliced objects; slice in place and into objects holding the same or another buffer; "
       "element counts/sizes including unrepresentable products and over-budget requests; slice bounds incl. buffer size +1, SIZE_MAX, values that wrap with the view offset). After every operation: size, data(), and at() for first/middle/last index "
@@ -235,7 +235,7 @@ check("C05", "exploration",
       "with the clear-callback log and the sim heap's allocation events compared with the ownership model after every operation; distinct = distinct plan hash; non-trivial = at least two allocations were made",
       ["src/memory.c", "include/cstl/memory.h"],
       required_probes=["share_nonempty", "lock_live", "lock_dead", "lock_into_last_owner", "reset_last_owner", "reset_last_owner_with_weak_left",
-                       "weak_reset_frees_bookkeeping", "unique_release", "unique_swap", "shared_swap", "alloc_fail_fired"])
+                       "weak_reset_frees_bookkeeping", "unique_release", "unique_swap", "shared_swap", "alloc_fail_fired", "self_swap", "many_refs_above_2^8", "many_refs_above_2^16", "alloc_size_unsatisfiable"])
 mtext("C05",
       "Sequential reference for C06, and a conservation law over allocator events: after EVERY operation the clear-callback log (which callback, on which memory, with which private pointer, while the payload is still intact) and the sim heap's block table must be exactly what the "
       "owner/reference-count model predicts -- clear then free in the operation that removes the last owner (never earlier, later or twice), bookkeeping block freed in the operation that removes the last shared-or-weak reference, every co-owner's get() equal, unique() == (references == 1), "
@@ -245,7 +245,7 @@ mtext("C05",
       "DESIGN.md 4.C05")
 
 check("C06", "exploration",
-      [dict(world="memc", mode=6, variants={"rel": 0.89, "asan": 0.09, "tsan": 0.02}, quick=330000, thorough=33000000)],
+      [dict(world="memc", mode=6, variants={"rel": 0.89, "asan": 0.09, "tsan": 0.02}, quick=500000, thorough=40000000)],
       "one evaluation = one seeded schedule of one seeded scenario (2-4 tasks, 1-6 operations each on their own shared/weak pointer objects, 1-2 allocations, seeded initial reference configuration, "
       "one of three scheduling strategies: uniform random / PCT-style priorities with 0-3 change points / sticky with a seeded switch probability); every atomic operation, sched_yield, library malloc/free and clear-callback entry is a scheduling point; "
       "distinct = distinct plan hash (scenario + scheduler seed); non-trivial = at least one preemption of a task in the middle of a library operation; distinct interleavings are measured separately as distinct (task, source line) sequences",
@@ -261,7 +261,7 @@ mtext("C06",
       "The property this technique was made for. Cooperative fibers stand in for threads; a seeded scheduler decides every interleaving at the granularity of the library's own atomic operations (shadowed <stdatomic.h>, no source change), plus sched_yield, library malloc/free and the clear callback. "
       "Oracle over the global event sequence: conservation (clear once, payload freed once and after clear, bookkeeping freed once and last), no atomic access to a freed block (checked at the access), never-earlier (no clear while a shared pointer that has returned from share/lock and not yet entered reset exists), "
       "a successful lock/share returns live memory, a lock may fail only if no owner was stable over the whole call, bounded liveness under a fair-yield rule (64*(ops+K) steps), the exact sequential end state after an all-reset epilogue, and Wing-Gong linearizability of the share/lock/reset results against an owner-count model. "
-      "330k schedules quick / 33M thorough over rel and ASan builds. Sampling: exhaustive exploration with visited-state pruning is model checking and is not claimed.",
+      "500k schedules quick / 40M thorough over rel and ASan builds. Sampling: exhaustive exploration with visited-state pruning is model checking and is not claimed.",
       "trusted: fiber scheduler, shim macros (comma expression: scheduling point then the real builtin with the requested order), interval-based owner oracle, linearizability checker (<= 24 operations per history)",
       "deterministic simulation: seeded scheduler over cooperative fibers at atomic-operation granularity; invariants on the event sequence + linearizability check against a sequential owner-count model",
       "DESIGN.md 4.C06")
